@@ -27,6 +27,9 @@ pub enum Outcome {
     PanicStr,
     /// Panics with a custom payload type.
     PanicCustom,
+    /// The panic is raised on a helper thread and re-raised in the callable
+    /// (`thread::spawn(..).join()` + `resume_unwind`), `String` payload.
+    PanicOnThread,
 }
 
 impl Outcome {
@@ -39,6 +42,7 @@ impl Outcome {
             Outcome::PanicString => "panicString",
             Outcome::PanicStr => "panicStr",
             Outcome::PanicCustom => "panicCustom",
+            Outcome::PanicOnThread => "panicOnThread",
         }
     }
 }
@@ -368,6 +372,13 @@ fn throw(outcome: Outcome, key: &str, inv: usize) {
         Outcome::PanicString => std::panic::panic_any(format!("boom {key}#{inv}")),
         Outcome::PanicStr => std::panic::panic_any("boom-static"),
         Outcome::PanicCustom => std::panic::panic_any(CustomPayload(format!("{key}#{inv}"))),
+        Outcome::PanicOnThread => {
+            let msg = format!("boom {key}#{inv}");
+            let res = std::thread::spawn(move || std::panic::panic_any(msg)).join();
+            if let Err(payload) = res {
+                std::panic::resume_unwind(payload);
+            }
+        }
     }
 }
 
